@@ -129,6 +129,11 @@ UClasses ==
    \* an aggregate (flattened) field next to a regular field with a default FACTORY
    FC   |-> Cls("dataclass", << F("c", TInt), [F("p", TObj("P1")) EXCEPT !.flat = TRUE],
                                 [FD("d", TColl("list", TInt), VList(<<>>)) EXCEPT !.dk = "fac"] >>),
+   \* `required` (with a default) carried INSIDE Annotated rather than by field(metadata=...): `mdann` is read by the
+   \* bridge alone, the semantics are those of RQ
+   RQA  |-> Cls("dataclass", << [FD("a", TInt, DInt(0)) EXCEPT !.reqmd = TRUE] @@ [mdann |-> TRUE], FD("b", TStr, DStr("")) >>),
+   \* a TypedDict whose REQUIRED key is Optional (None is a value, never a default)
+   TDR  |-> Cls("typeddict", << F("s", TStr), F("v", TOpt(TFloat)) >>),
    UF   |-> Cls("dataclass", << F("u", TUnion(<<TInt, TEnum("ES")>>)), FD("l", TUnion(<<TEnum("EI"), TStr>>), DStr("s")) >>),
    EF   |-> Cls("dataclass", << F("e", TEnum("EI")), FD("l", TLit(<<DStr("a"), DInt(2)>>), DStr("a")) >>)]
 
@@ -173,6 +178,9 @@ Ctor1(t) ==
 HashableLeaves == Leaves \ {TAny}
 SetTypes  == { TColl(c, t) : c \in {"set", "fset"}, t \in HashableLeaves \cup {TTuple(<<TInt, TStr>>)} }
           \cup { TAnnot(TColl("list", TInt), << <<"unique", TRUE>> >>) }
+          \* a size constraint on a set: it reads the DATA (an array with duplicates), not the deduplicated value
+          \* (an upper bound only: a LOWER bound met by duplicates gives a value whose image no longer meets it)
+          \cup { TAnnot(TColl("set", TInt), << <<"max_items", 2>> >>) }
 MapTypes  == { TMap(TAnnot(TStr, << <<"pattern", "pa">> >>), TInt), TMap(TLit(<<DStr("a"), DStr("b")>>), TInt),
                TMap(TEnum("ES"), TInt), TMap(TEnum("ES"), TFloat), TAnnot(TMap(TStr, TInt), << <<"min_props", 1>>, <<"max_props", 1>> >>) }
 ObjTypes  == { TObj(c) : c \in ObjClasses }
